@@ -138,12 +138,12 @@ Print Assumptions C18_failed_command_not_stored.
 
 (* hypotheses satisfiable: two commands, the unnamed first one fails, the named second one would write the return file *)
 Example C18_commands_nonvacuous :
-  let cs := [(mk_cs false false (Some 3%positive), None); (mk_cs true true None, Some "c1")] in
+  let cs := [(mk_cs false false (Some (Exit 3%positive)) false, None); (mk_cs true true None false, Some "c1")] in
   let inp := mk_ji "b" cs None (Some ["o.txt"]) None in
   NoDup (cmd_names cs) /\ rf_free "o.txt" cs
-  /\ run_cmds false (map fst cs) = OFail 3%positive
+  /\ run_cmds false (map fst cs) = OFail (Exit 3%positive)
   /\ fst (body cstep (step_exec "o.txt" "x") (fun _ => "h") [] inp) = Done 1 (mk_jo [] [] 3 [] "h")
-  /\ run_cmds false (map fst (rev cs)) = OFailFile 3%positive.
+  /\ run_cmds false (map fst (rev cs)) = OFailFile (Exit 3%positive).
 Proof.
   cbv zeta. repeat split; try reflexivity.
   - repeat constructor; simpl; intuition discriminate.
@@ -167,7 +167,7 @@ Print Assumptions C18_names_distinct_vectorised.
    entry; b.1 fails once.  Run 1 executes a.0, a.1, b.0, b.1 (not c, not zz), stores a; run 2 executes only b.1 and
    stores b; run 3 executes nothing. *)
 Definition ex_plans : list (string * list (list cstep)) :=
-  [("b.1", [[mk_cs false false (Some 3%positive); mk_cs true true None]])].   (* unnamed command fails, the named one after it would write *)
+  [("b.1", [[mk_cs false false (Some (Exit 3%positive)) false; mk_cs true true None false]])].   (* unnamed command fails, the named one after it would write *)
 Definition ex_state : jstate :=
   mk_js [("a", 2%nat); ("b", 2%nat); ("c", 1%nat)] [("c", [("pre", 9%N)]); ("zz", [("pre", 1%N)])]
         [("a.0", COut (mk_out "B" 0 true 5%N)); ("b.0", CCorrupt); ("c.0", COut (mk_out "A" 7 false 0%N))] [("a.0", 6%N)].
@@ -193,4 +193,121 @@ Proof.
     repeat match type of H with (if ?c then _ else _) = _ => destruct c end; try discriminate;
     injection H as <-; simpl; intros; try reflexivity; discriminate.
   - left. vm_compute. discriminate.
+Qed.
+
+(* ================================================================== round 3 *)
+(* ---- "items already in the destination are not executed again", whoever put them there and through whichever handle:
+   Collection.keys() is the key set held by the HANDLE; jobmap takes it inside destination.reading(), where it is the
+   key set of the file, so the work list does not depend on what the handle knew before.  A view that is not
+   refreshed (fresh handle on a pre-populated file) sends a stored item to be executed again. *)
+Theorem C18_handle_view_refreshed : forall p st,
+  todo_seen (map fst (js_dst st)) st = todo st /\ runlist_seen p (map fst (js_dst st)) st = runlist p st.
+Proof. exact (fun p st => conj (todo_seen_refreshed st) (runlist_seen_refreshed p st)). Qed.
+Print Assumptions C18_handle_view_refreshed.
+
+Theorem C18_stale_view_refuted :
+  let st := mk_js [("a", 1%nat); ("b", 1%nat)] [("a", [("A", 0%N)])] [("a", COut (mk_out "B" 0 true 0%N))] [("a", 1%N)] in
+  let p := mk_jp "A" true false in
+  let ok := fun (_ : string) (_ : N) => OSucceed in
+  let nocrash := fun (_ : string) (_ : N) => false in
+  runlist_seen p [] st = ["a"; "b"] /\ runlist p st = ["b"]
+  /\ cnt (jobmapX_seen ok nocrash false p [] st) "a" = 2%N
+  /\ cnt (jobmapX ok nocrash false p st) "a" = 1%N.
+Proof. exact stale_view_refuted. Qed.
+Print Assumptions C18_stale_view_refuted.
+
+(* ---- a command killed by a signal: the recorded exit code is the negative signal number; such an output is never
+   reused and never processed, with or without its return file *)
+Theorem C18_failed_output_rejected : forall p o, o_code o <> 0%Z ->
+  valid p (Some (COut o)) = false /\ good (Some (COut o)) = None.
+Proof. exact failed_output_rejected. Qed.
+Print Assumptions C18_failed_output_rejected.
+Theorem C18_failure_codes_nonzero : forall e, ecode_Z e <> 0%Z.
+Proof. exact ecode_nonzero. Qed.
+Example C18_killed_after_writing_nonvacuous :
+  run_cmds false [mk_cs true true (Some (Signal 9%positive)) false] = OFailFile (Signal 9%positive)
+  /\ o_code (out_of "A" (OFailFile (Signal 9%positive)) 0%N) = (-9)%Z
+  /\ good (Some (COut (out_of "A" (OFailFile (Signal 9%positive)) 0%N))) = None.
+Proof. repeat split; reflexivity. Qed.
+
+(* ---- runners that die before they write their output (jobmapX; `crashes nm n`: the runner of the n-th execution of
+   nm is killed, or a command's program does not exist).  One run, pointwise: as C18_run, except that the cache has NO
+   entry for an item whose runner died (the output judged unsuitable was removed when the item was dispatched). *)
+Theorem C18_run_with_dying_runners : forall outcome crashes p st, NoDup (map fst (js_src st)) -> NoDup (runlist p st) ->
+  let st' := jobmapX outcome crashes false p st in
+  js_src st' = js_src st
+  /\ (forall nm, cnt st' nm = if mem nm (runlist p st) then (cnt st nm + 1)%N else cnt st nm)
+  /\ (forall nm, dget nm (js_cache st') =
+                 if mem nm (runlist p st) then after_exec outcome crashes false p st nm else dget nm (js_cache st))
+  /\ (forall k, dget k (js_dst st') =
+        match dget k (js_dst st) with
+        | Some v => Some v
+        | None => match find (key_is k) (js_src st) with
+                  | Some kl => all_good (js_cache st') (names p kl)
+                  | None => None
+                  end
+        end).
+Proof. exact (fun outcome crashes => jobmapX_spec outcome crashes false). Qed.
+Print Assumptions C18_run_with_dying_runners.
+
+(* when no runner dies, jobmapX is jobmap: every theorem above speaks about the runs the correspondence replays *)
+Theorem C18_no_dying_runner : forall outcome crashes br p st, NoDup (runlist p st) ->
+  (forall nm, In nm (runlist p st) -> crashes nm (cnt st nm) = false) ->
+  jobmapX outcome crashes br p st = jobmap outcome p st.
+Proof. exact jobmapX_crash_free. Qed.
+Print Assumptions C18_no_dying_runner.
+
+(* "a cached output from a different input is not reused": under strict_hash a new entry of the destination is made of
+   outputs of THIS input only, whichever runners die *)
+Theorem C18_stored_is_of_this_input : forall outcome crashes p st kl v,
+  NoDup (map fst (js_src st)) -> NoDup (runlist p st) -> jp_strict p = true ->
+  In kl (js_src st) -> dget (fst kl) (js_dst st) = None ->
+  dget (fst kl) (js_dst (jobmapX outcome crashes false p st)) = Some v -> value_of_arg (jp_arg p) v = true.
+Proof. exact stored_is_of_this_input. Qed.
+Print Assumptions C18_stored_is_of_this_input.
+
+(* an item whose runner died is not stored, and the next run executes it again (and only what failed or died) *)
+Theorem C18_crashed_item_not_stored : forall outcome crashes p st kl nm,
+  NoDup (map fst (js_src st)) -> NoDup (all_names p st) ->
+  In kl (js_src st) -> In nm (names p kl) -> In nm (runlist p st) -> crashes nm (cnt st nm) = true ->
+  dget (fst kl) (js_dst (jobmapX outcome crashes false p st)) = None.
+Proof. exact crashed_item_not_stored. Qed.
+Print Assumptions C18_crashed_item_not_stored.
+
+Theorem C18_resume_with_dying_runners : forall outcome crashes p st nm,
+  NoDup (map fst (js_src st)) -> NoDup (all_names p st) ->
+  In nm (runlist p (jobmapX outcome crashes false p st)) <->
+  In nm (runlist p st) /\ (crashes nm (cnt st nm) = true \/ failed (outcome nm (cnt st nm))).
+Proof. exact resumeX. Qed.
+Print Assumptions C18_resume_with_dying_runners.
+
+(* the code before repair df05caa stored the successful output of input A as the result of input B when B's runner
+   died; the repaired code stores nothing, forgets the old output and executes the item again next time *)
+Theorem C18_stale_output_stored_refuted_before_repair :
+  let st := mk_js [("a", 1%nat)] [] [("a", COut (mk_out "A" 0 true 0%N))] [("a", 1%N)] in
+  let p := mk_jp "B" true false in
+  let ok := fun (_ : string) (_ : N) => OSucceed in
+  let dies := fun (_ : string) (_ : N) => true in
+  dget "a" (js_dst (jobmapX ok dies true p st)) = Some [("A", 0%N)]
+  /\ value_of_arg (jp_arg p) [("A", 0%N)] = false
+  /\ dget "a" (js_dst (jobmapX ok dies false p st)) = None
+  /\ dget "a" (js_cache (jobmapX ok dies false p st)) = None
+  /\ cnt (jobmapX ok dies false p st) "a" = 2%N.
+Proof. exact stale_output_stored_refuted_before_repair. Qed.
+Print Assumptions C18_stale_output_stored_refuted_before_repair.
+
+(* hypotheses satisfiable, conclusion not trivial: two items with successful outputs of input A, mapped with input B
+   under strict_hash; a's runner dies at its second command (program missing), b succeeds: only b is stored, as B's *)
+Example C18_dying_runner_nonvacuous :
+  let plans := [("a", [[mk_cs true false None false; mk_cs true true (Some (Exit 1%positive)) true]])] in
+  let st := mk_js [("a", 1%nat); ("b", 1%nat)] [] [("a", COut (mk_out "A" 0 true 0%N)); ("b", COut (mk_out "A" 0 true 0%N))] [] in
+  let p := mk_jp "B" true false in
+  let st' := jobmapX (plan_outcome plans) (plan_crashes plans) false p st in
+  NoDup (map fst (js_src st)) /\ NoDup (all_names p st) /\ runlist p st = ["a"; "b"]
+  /\ plan_crashes plans "a" 0%N = true /\ plan_crashes plans "b" 0%N = false
+  /\ js_dst st' = [("b", [("B", 0%N)])] /\ dget "a" (js_cache st') = None /\ runlist p st' = ["a"].
+Proof.
+  cbv zeta. repeat split; try reflexivity.
+  - repeat constructor; simpl; intuition discriminate.
+  - repeat constructor; simpl; intuition discriminate.
 Qed.
